@@ -5,6 +5,7 @@ package drivers
 
 import (
 	"context"
+	"net"
 	"encoding/json"
 	"fmt"
 	"os"
@@ -90,6 +91,7 @@ func runLeakCase(c lkCase, bin, base string) map[string]interface{} {
 	out["setup_ok"] = true
 	ok := true
 	id := uint32(600)
+	var unserved []net.Listener
 	for _, op := range c.Ops {
 		id++
 		switch op {
@@ -141,7 +143,7 @@ func runLeakCase(c lkCase, bin, base string) map[string]interface{} {
 		case "raw_accept_reuse":
 			// the host application accepts one id twice with the broker's raw Accept, serves on the listeners
 			// itself and never closes them (plain gRPC, no TLS: each listener has a socket file go-plugin created)
-			if gb, ok := stub.Broker.(vp.GRPCAPI); ok && wire == "grpc" && !mux && c.TLS == "" {
+			if gb, isG := stub.Broker.(vp.GRPCAPI); isG && wire == "grpc" && !mux && c.TLS == "" {
 				for round := 0; round < 2; round++ {
 					tag := strconv.Itoa(int(id)) + "x" + strconv.Itoa(round)
 					if err := gb.ServeWhoRaw(id, tag); err != nil {
@@ -157,7 +159,7 @@ func runLeakCase(c lkCase, bin, base string) map[string]interface{} {
 		case "raw_accept_closed":
 			// the host application accepts two ids itself; it closes the first listener when it is done with it
 			// and leaves the second to the shutdown
-			if gb, ok := stub.Broker.(vp.GRPCAPI); ok && wire == "grpc" && !mux && c.TLS == "" {
+			if gb, isG := stub.Broker.(vp.GRPCAPI); isG && wire == "grpc" && !mux && c.TLS == "" {
 				closeFirst, err := gb.ServeWhoRawCloser(id, "first")
 				if err != nil {
 					ok = false
@@ -176,6 +178,23 @@ func runLeakCase(c lkCase, bin, base string) map[string]interface{} {
 				if r, err := stub.Do(vp.Cmd{Op: "dial", ID: id + 5000}); err != nil || r.S != "second" {
 					out["op_note"] = fmt.Sprintf("raw closed second: %v %q", err, r.S)
 				}
+			}
+		case "raw_accept_unserved":
+			// the host application reserves an id with the broker's raw Accept and never gets round to accepting
+			// on the listener; the plugin dials the id once (its first call cannot be answered and gives up);
+			// the application closes the listener after the Kill
+			if gb, isG := stub.Broker.(vp.GRPCAPI); isG && wire == "grpc" && c.TLS == "" {
+				ln, err := gb.B.Accept(id)
+				if err != nil {
+					ok = false
+					out["op_err"] = fmt.Sprint(err)
+					break
+				}
+				unserved = append(unserved, ln)
+				ctx, cf := context.WithTimeout(context.Background(), 20*time.Second)
+				r, err := stub.DoCtx(ctx, vp.Cmd{Op: "dial", ID: id})
+				cf()
+				out["op_note"] = fmt.Sprintf("unserved: %v %q", err, r.S)
 			}
 		case "unmatched_dials":
 			// the plugin dials one id twice at once, nobody ever accepts: both calls give up
@@ -222,6 +241,9 @@ func runLeakCase(c lkCase, bin, base string) map[string]interface{} {
 	t0 := time.Now()
 	p.Client.Kill()
 	out["kill_ms"] = time.Since(t0).Milliseconds()
+	for _, ln := range unserved {
+		ln.Close()
+	}
 	time.Sleep(1 * time.Second) // settle
 	_, merr := os.Stat(marker)
 	out["graceful"] = merr == nil
